@@ -1391,7 +1391,7 @@ class RestAPI(object):
                 the Task rather than complete it successfully.
                 """
                 error = params.get("error") or "States.TaskFailed"
-                cause = params.get("cause")
+                cause = params.get("cause") or ""  # The cause is optional too.
 
                 """
                 First check if the error or cause exceed length limits.
